@@ -280,7 +280,7 @@ func Check(id, tier string, seed int64) int {
 	known := LoadKnown()
 	var stale []string
 	for id, e := range known {
-		if e.Property == p.ID && e.Status == "known" {
+		if e.Covers(p.ID) && e.Status == "known" {
 			if _, ok := merged.Known[id]; !ok {
 				stale = append(stale, id)
 			}
